@@ -134,8 +134,10 @@ def perturb(rng, v):
         if kv and c < 0.5:
             j = rng.randrange(len(kv))
             kv[j] = (kv[j][0], perturb(rng, kv[j][1]))
-        elif len(kv) >= 2 and c < 0.8:
+        elif len(kv) >= 2 and c < 0.7:
             kv = kv[::-1]
+        elif len(kv) >= 1 and c < 0.85:
+            kv = kv[:-1]                      # a sub-map (same entries, one fewer)
         else:
             return ("list", [], 0, False)
         return ("map", kv)
@@ -207,6 +209,10 @@ CORPUS = [(("num", "1", True), ("num", "0.9999999999999998", True)),
           (("list", [("num", "1", True), ("num", "0.9999999999999998", True)], 1, False), ("list", [("num", "0.9999999999999998", True), ("num", "1", True)], 1, False)),
           (("map", [(("str", "a", False), ("num", "1", True)), (("str", "b", False), ("num", "2", True))]),
            ("map", [(("str", "b", False), ("num", "2", True)), (("str", "a", False), ("num", "1", True))])),
+          (("map", [(("str", "a", False), ("num", "1", True))]),
+           ("map", [(("str", "a", False), ("num", "1", True)), (("str", "b", False), ("num", "2", True))])),
+          (("map", [(("str", "a", False), ("num", "1", True)), (("str", "b", False), ("num", "2", True))]),
+           ("map", [(("str", "a", False), ("num", "1", True))])),
           (("other", "red"), ("other", "#f00")), (("other", "red"), ("other", "hsl(0, 100%, 50%)")),
           (("null",), ("null",)), (("true",), ("false",)), (("null",), ("false",)),
           (("num", "0", True), ("num", "(0*-1)", True)),
